@@ -337,10 +337,11 @@ static int bytestream_bsend(struct xcm_socket *conn_s, const void *buf,
 	int rc = xcm_tp_socket_send(conn_s, buf + sent, left);
 
 	if (rc < 0) {
+	    /* bytes already accepted must be reported as such */
 	    if (errno != EAGAIN)
-		return -1;
+		return sent > 0 ? sent : -1;
 	    if (socket_wait(conn_s, XCM_SO_SENDABLE) < 0)
-		return -1;
+		return sent > 0 ? sent : -1;
 	} else
 	    sent += rc;
     } while (sent < len);
@@ -375,8 +376,19 @@ int xcm_send(struct xcm_socket *__restrict conn_s,
 	else
 	    rc = msg_bsend(conn_s, buf, len);
 
-	if (rc >= 0 && socket_finish(conn_s) < 0)
-	    return -1;
+	if (rc >= 0) {
+	    /* The data has been accepted, and will be delivered. From
+	       here on, an interrupted wait is resumed, since reporting
+	       failure would make the application send it again. */
+	    int f_rc;
+	    while ((f_rc = socket_finish(conn_s)) < 0 && errno == EINTR)
+		;
+
+	    /* bytes handed to the lower layer stay accepted; the
+	       error is reported by the next call */
+	    if (f_rc < 0 && rc == 0)
+		return -1;
+	}
 
 	return rc;
     } else
